@@ -232,6 +232,12 @@ fn grammar_of_src(src: &str) -> (String, String, Option<OpTable>, Option<String>
             let d = zoo::zoo_dir(f[1]);
             ("zoo".into(), std::fs::read_to_string(d.join("grammar.json")).expect("zoo grammar"), None, std::fs::read_to_string(d.join("scanner.c")).ok())
         }
+        "lalr" => {
+            let seed: u64 = f[1].parse().unwrap();
+            let k: usize = f[2].parse().unwrap();
+            let mut rng = Rng::new(seed ^ 0x1A18 ^ (k as u64).wrapping_mul(0x9E37));
+            ("cfg".into(), serde_json::to_string(&lalr_split_grammar(&mut rng, &format!("c03lalr{k}"))).unwrap(), None, None)
+        }
         "json" => ("cfg".into(), String::from_utf8(unhex(f[1])).unwrap(), None, None),
         _ => panic!("bad src {src}"),
     }
@@ -309,6 +315,13 @@ fn main() {
         let g = op_grammar(&name, &t);
         let json = serde_json::to_string(&g).unwrap();
         explore_token_grammar(&mut em, &mut cu, &mut rng, &name, "op", &format!("op:{name}:{}", t.encode()), &json, Some(&t), budget, nrandom, &mut stats);
+    }
+    // LR(1)-but-not-LALR(1) grammars with 2..4-way splits of one item-set core
+    for k in 0..(if thorough { 60 } else { 8 }) {
+        let mut grng = Rng::new(seed ^ 0x1A18 ^ (k as u64).wrapping_mul(0x9E37));
+        let name = format!("c03lalr{k}");
+        let json = serde_json::to_string(&lalr_split_grammar(&mut grng, &name)).unwrap();
+        explore_token_grammar(&mut em, &mut cu, &mut rng, &name, "cfg", &format!("lalr:{seed}:{k}"), &json, None, budget, nrandom, &mut stats);
     }
     // random CFGs: each from its own seed so that a spec can rebuild it
     let mut k = 0usize;
